@@ -234,6 +234,40 @@ pub broadcast proof fn lemma_any_push(p: Seq<Rc<SemType>>, t: Rc<SemType>, n: in
     }
     if smem(t, v) { assert(q[p.len() as int] == t); }
 }
+// ---- the record route of object indexed access (`bdd_mapped_record_member_type_inner_val`): the index type is not a
+// set of string constants; an atom takes part when the index type is a subtype of its index signature's key type.
+// That decision is `is_subtype`'s, whose contract names the difference only existentially, so the walk is bounded from
+// both sides: by the atoms that are seen to cover the index type, and by those that are not seen not to cover it (the
+// two coincide when the emptiness decision is a function of the difference's meaning).
+pub open spec fn covers(defs: Defs, idx: SemType, key: SemType) -> bool { exists|d: SemType| #[trigger] diff_res(idx, key, d) && sem_empty(d, defs) }
+pub open spec fn seen_not_covering(defs: Defs, idx: SemType, key: SemType) -> bool { exists|d: SemType| #[trigger] diff_res(idx, key, d) && !sem_empty(d, defs) }
+pub open spec fn rroute_hi(defs: Defs, b: Bdd, idx: SemType, v: Val) -> bool
+    decreases b
+{
+    match b {
+        Bdd::True => true,
+        Bdd::False => false,
+        Bdd::Node { atom, left, middle, right } => (match mt_of(defs, atom).indexed_properties {
+            Some(ip) => covers(defs, idx, *ip.key)
+                && ((smem(ip.value, v) && rroute_hi(defs, *left, idx, v)) || rroute_hi(defs, *middle, idx, v) || rroute_hi(defs, *right, idx, v)),
+            None => false,
+        }),
+    }
+}
+pub open spec fn rroute_lo(defs: Defs, b: Bdd, idx: SemType, v: Val) -> bool
+    decreases b
+{
+    match b {
+        Bdd::True => true,
+        Bdd::False => false,
+        Bdd::Node { atom, left, middle, right } => (match mt_of(defs, atom).indexed_properties {
+            Some(ip) => !seen_not_covering(defs, idx, *ip.key)
+                && ((smem(ip.value, v) && rroute_lo(defs, *left, idx, v)) || rroute_lo(defs, *middle, idx, v) || rroute_lo(defs, *right, idx, v)),
+            None => false,
+        }),
+    }
+}
+
 // ---- the top of `mapping_indexed_access`: how the key set is read off the index type's string part
 // R22: the one-element slice pattern
 #[verifier::external_body]
@@ -305,12 +339,12 @@ pub open spec fn mapping_parts_wf(defs: Defs, t: SemType) -> bool {
     }
 }
 // what `T[K]` is on the object part of T for a key set that the string-key route can use
-pub closed spec fn mapping_access_spec(defs: Defs, obj: SemType, key: Option<MappingStrKey>, r: SemType) -> bool {
+pub closed spec fn mapping_access_spec(defs: Defs, obj: SemType, idx: SemType, key: Option<MappingStrKey>, r: SemType) -> bool {
     if no_mapping_part(obj) { forall|v: Val| !#[trigger] mem(r, v) }
     else {
         exists|b: Bdd| #[trigger] mapping_part(obj, b) && (match key {
             Some(sk) => forall|v: Val| #[trigger] mem(r, v) == mproj_mem(defs, b, sk, v),
-            None => true,
+            None => forall|v: Val| (#[trigger] mem(r, v) ==> rroute_hi(defs, b, idx, v)) && (rroute_lo(defs, b, idx, v) ==> mem(r, v)),
         })
     }
 }
@@ -367,5 +401,5 @@ pub closed spec fn list_top(defs: Defs, obj: SemType, idx: SemType, lr: SemType)
 }
 pub closed spec fn map_top(defs: Defs, obj: SemType, idx: SemType, mr: SemType) -> bool {
     &&& no_mapping_part(obj) ==> forall|v: Val| !#[trigger] mem(mr, v)
-    &&& !no_mapping_part(obj) && mapping_parts_wf(defs, obj) ==> exists|key: Option<MappingStrKey>| #[trigger] str_key_for(idx, key) && mapping_access_spec(defs, obj, key, mr)
+    &&& !no_mapping_part(obj) && mapping_parts_wf(defs, obj) ==> exists|key: Option<MappingStrKey>| #[trigger] str_key_for(idx, key) && mapping_access_spec(defs, obj, idx, key, mr)
 }
